@@ -1,6 +1,7 @@
 import SSV.Proofs.RelayLifeInv1
 import SSV.Proofs.RelayLifeInv3
 import SSV.Proofs.RelayLifeInv4
+import SSV.Proofs.RelayLifeInv5
 /-
 C12: the property-level consequences of the invariants, for an arbitrary configuration of the model.
 `SSV/Props/C12.lean` instantiates them with the configurations regenerated from the four relay files.
@@ -114,6 +115,28 @@ theorem downlink_socket_open {s : State} (h : Reachable cfg s) {i : Nat} (hi : i
     (hp : (s.ent i).ipc = .dRead ∨ (s.ent i).ipc = .dProc) : (s.ent i).sock = true := by
   have I := inv4_reachable cfg h
   rcases hp with hp | hp <;> exact I.s2 i hi (by rw [hp]; simp [IPc.idx]) (by rw [hp]; simp [IPc.idx])
+
+
+theorem inv5_reachable {s : State} (h : Reachable cfg s) : Inv5 cfg s := by
+  induction h with
+  | init => exact inv5_initial cfg
+  | step e hr hs ih => exact inv5_step cfg _ _ e (inv4_reachable cfg hr) ih hs
+
+/-- a downlink blocked in its read always has a read deadline (if the initialiser arms one before the goroutines start) -/
+theorem downlink_has_deadline (ha : cfg.initArms = true) {s : State} (h : Reachable cfg s) {i : Nat} (hi : i < s.n)
+    (hp : (s.ent i).ipc = .dRead) : (s.ent i).dl ≠ .unset :=
+  (inv5_reachable cfg h).d1 ha i hi (by rw [hp]; simp [IPc.idx]) (by rw [hp]; simp [IPc.idx])
+
+/-- so the blocked read can always end by itself: either the NAT timer can still fire or the read fails right away;
+this does not depend on the uplink ever having sent (or packed) anything -/
+theorem downlink_can_time_out (ha : cfg.initArms = true) {s : State} (h : Reachable cfg s) {i : Nat} (hi : i < s.n)
+    (hp : (s.ent i).ipc = .dRead) :
+    (step cfg s (.timer i)).isSome = true ∨ (step cfg s (.dTimeout i)).isSome = true := by
+  have hd := downlink_has_deadline cfg ha h hi hp
+  cases hdl : (s.ent i).dl with
+  | unset => exact absurd hdl hd
+  | future => left; simp [step, hi, hdl]
+  | past => right; simp [step, hi, hp, hdl]
 
 /-- shape of a state in which Stop waits and only the NAT timer (or the environment) can make anything move -/
 def stuckOnTimer (s : State) : Prop :=
